@@ -25,11 +25,12 @@ U = TStruct("u_t", (TField("lo", INTS["uint8"]), TField("w", INTS["uint16"]), TF
 S1 = TStruct("S1", (
     TField("a", INTS["uint8"]), TField("arr", TArr(INTS["uint16"], 2)), TField("n", N), TField("ns", TArr(N, 2)), TField("c", TArr(CHAR, 2)),
     TField("w", TArr(WCHAR, 2)), TField("b1", INTS["uint16"], 4), TField("b2", INTS["uint16"], 12), TField("u", U), TField("m", TArr(TArr(INTS["uint8"], 2), 2)),
-    TField("p", TPtr(INTS["uint8"])), TField(None, AN), TField("g", TArr(TArr(N, 2), 2)), TField("c3", TArr(TArr(TArr(INTS["uint8"], 2), 2), 2)),
+    TField("p", TPtr(INTS["uint8"])), TField(None, AN), TField("g", TArr(TArr(N, 2), 2)), TField("c3", TArr(TArr(TArr(INTS["uint8"], 2), 2), 2)), TField("z0", TArr(INTS["uint16"], 0)),
 ))
 S2 = TStruct("S2", (TField("n", INTS["uint8"]), TField("d", TArr(INTS["uint16"], "n * NK - n")), TField("t", INTS["uint8"])))
-TEXT = "#define NK 2\n" + render(S1) + "\n" + "struct S2 { uint8 n; uint16 d[n * NK - n]; uint8 t; };"
-TYPES = {"S1": S1, "S2": S2}
+S3 = TStruct("S3", (TField("k", INTS["uint8"]), TField("q", TArr(INTS["uint8"], "2 + 6 / k")), TField("t", INTS["uint8"])))  # the size expression can FAIL (k = 0)
+TEXT = "#define NK 2\n" + render(S1) + "\n" + "struct S2 { uint8 n; uint16 d[n * NK - n]; uint8 t; };\nstruct S3 { uint8 k; uint8 q[2 + 6 / k]; uint8 t; };"
+TYPES = {"S1": S1, "S2": S2, "S3": S3}
 ENDIAN = ["<", ">"]
 
 
@@ -62,6 +63,8 @@ def zero_value(tname, cfg):
     if tname == "S1":
         v, _ = decode(S1, bytes(sizeof(S1, cfg)), 0, cfg)
         return v
+    if tname == "S3":
+        return None  # S3() cannot be sized (k = 0 divides by zero): not constructed by default
     return {"n": 0, "d": [], "t": 0}
 
 
@@ -69,6 +72,8 @@ def data_for(tname, k):
     if tname == "S1":
         n = sizeof(S1, Cfg())
         return bytes(((i * 7 + 3 + k * 11) % 250) + 1 for i in range(n))
+    if tname == "S3":
+        return bytes([2 + (k % 2)]) + bytes([0x21 + k, 0x22, 0x23 + k, 0x24, 0x25, 0x26, 0x27]) + bytes([0x66 - k])
     return bytes([2]) + bytes([0x10 + k, 0x20, 0x30 + k, 0x40, 0x50 + k, 0x60, 0x70, 0x71 + k]) + bytes([0x99 - k, 0x98])
 
 
@@ -109,6 +114,40 @@ def op_fail_parse(ci, tname):
             return
         raise AssertionError("truncated parse did not raise EOFError")
     return (f"fail_parse(cs{ci},{tname})", run, lambda w: True)
+
+
+def op_fail_expr(ci):
+    """A parse that fails INSIDE the evaluation of a size expression (division by zero), with operands already pending."""
+    def run(w: World):
+        try:
+            w.cs[ci].S3(bytes([0, 1, 2, 3, 4, 5, 6, 7, 8, 9]))
+        except ZeroDivisionError:
+            return
+        raise AssertionError("S3 with k = 0 did not raise ZeroDivisionError")
+    return (f"fail_expr(cs{ci})", run, lambda w: True)
+
+
+def op_new_all_none(ci):
+    """Every field is passed, all as None ("use the default"): the instance must own its defaults like any other."""
+    def run(w: World):
+        T = w.cs[ci].S1
+        obj = T(**{f._name: None for f in T.__fields__})
+        w.inst.append((ci, "S1", obj, zero_value("S1", w.cfg(ci))))
+    return (f"new_all_none(cs{ci})", run, lambda w: len(w.inst) < 3)
+
+
+def op_new_positional(ci):
+    """Exactly one positional (non-buffer) value."""
+    def run(w: World):
+        obj = w.cs[ci].S1(9)
+        v = zero_value("S1", w.cfg(ci))
+        v["a"] = 9
+        w.inst.append((ci, "S1", obj, v))
+    return (f"new_positional(cs{ci})", run, lambda w: len(w.inst) < 3)
+
+
+def op_mut_zero(j):
+    return _mut(j, "x.z0.append(0x77)", lambda o: o.z0.append(0x77), lambda v: v["z0"].append(0x77))
 
 
 def _mut(j, label, fn_impl, fn_model, tname="S1"):
@@ -213,9 +252,9 @@ def op_load_alias_user(ci):
 
 def alphabet(tier):
     ops = [op_new_default(0, "S1"), op_new_default(1, "S1"), op_new_default(0, "S2"), op_new_kw(0), op_new_kw(1),
-           op_parse(0, "S1", 0), op_parse(1, "S1", 1), op_parse(0, "S2", 0), op_fail_parse(0, "S1"), op_fail_parse(0, "S2")]
+           op_parse(0, "S1", 0), op_parse(1, "S1", 1), op_parse(0, "S2", 0), op_fail_parse(0, "S1"), op_fail_parse(0, "S2"), op_fail_expr(0), op_new_all_none(0), op_new_positional(0)]
     for j in (0, 1):
-        ops += [op_mut_scalar(j), op_mut_arr(j), op_mut_nested(j), op_mut_arrstruct(j), op_mut_union(j), op_mut_2d(j), op_mut_dyn(j), op_mut_anon(j), op_mut_anon_arr(j), op_mut_grid(j), op_mut_cube(j)]
+        ops += [op_mut_scalar(j), op_mut_arr(j), op_mut_nested(j), op_mut_arrstruct(j), op_mut_union(j), op_mut_2d(j), op_mut_dyn(j), op_mut_anon(j), op_mut_anon_arr(j), op_mut_grid(j), op_mut_cube(j), op_mut_zero(j)]
     ops += [op_load_extra(0), op_flip(0), op_flip(1), op_add_type(0), op_add_type(1), op_load_alias_user(0), op_load_alias_user(1), op_redefine_const(0)]
     return ops
 
@@ -235,6 +274,8 @@ def check_invariant(w: World, hist, res: JobResult):
             continue
         # dumps reflects exactly this instance's value under its cstruct's *current* endianness
         cfg = Cfg(endian=w.endian[ci], consts={"NK": w.created_nk.get(id(obj), w.nk[ci])})  # the array length was fixed when the value was made
+        if tn == "S1" and v.get("z0"):
+            continue  # a grown zero-length array is refused on dump (C07): nothing to compare
         try:
             out = obj.dumps()
             back, _ = decode(TYPES[tn], out + b"\x00" * 4, 0, cfg)
@@ -249,12 +290,19 @@ def check_invariant(w: World, hist, res: JobResult):
             bad.append(("instance:dumps-raises", f"instance #{idx}: {impl.exc_sig(e)} {e!r}"))
     for ci in (0, 1):
         cfg = w.cfg(ci)
-        for tn in ("S1", "S2"):
+        for tn in ("S1", "S2", "S3"):
             T = getattr(w.cs[ci], tn)
-            d = impl.norm(T())
-            if not same(_strip_ptr(d), _strip_ptr(zero_value(tn, cfg))):
-                bad.append(("default:not-pristine", f"a fresh {tn}() of cs{ci} is {d}"))
-            obs.append(repr(d))
+            if tn != "S3":
+                d = impl.norm(T())
+                if not same(_strip_ptr(d), _strip_ptr(zero_value(tn, cfg))):
+                    bad.append(("default:not-pristine", f"a fresh {tn}() of cs{ci} is {d}"))
+                obs.append(repr(d))
+            if tn == "S1":
+                forms = {"all fields None": lambda: T(**{f._name: None for f in T.__fields__}), "one positional value": lambda: T(0)}
+                for fname_, mkf in forms.items():
+                    d2 = impl.norm(mkf())
+                    if not same(_strip_ptr(d2), _strip_ptr(zero_value(tn, cfg))):
+                        bad.append(("default:not-pristine", f"a fresh S1 of cs{ci} constructed with {fname_} is {d2}"))
             data = data_for(tn, 2)
             exp, end = decode(TYPES[tn], data, 0, cfg)
             st = io.BytesIO(data)
